@@ -4,7 +4,9 @@
 // static functions pushPairArena, arenaAllocEfc, arenaAllocIsland.
 //
 // argv: nbody nlink cone islands cluster
-// stdin: lines  <site> <avail>   site: P pushPairArena | C mj_addContact | E arenaAllocEfc | I arenaAllocIsland
+// stdin: lines  <site> <avail>   site: P pushPairArena | C mj_addContact | E arenaAllocEfc | I arenaAllocIsland |
+//                              Y mj_makeY(m,d,0) | A mj_makeAR (both: extra lines  D <sparse> <nv> <nefc> <nY> <nA>  before and
+//                              P <n> <dual pointers of the call in allocation order>  after the O line)
 // stdout per line (each test runs in a child process):
 //   K <sizeof mjContact> <alignof mjContact> <sizeof mjcPair> <alignof mjcPair> <base> <narena>
 //   R <n> <bytes align>*n                       request list of the X-macro (E, I), empty otherwise
@@ -109,6 +111,10 @@ static int one_test(char site, long long avail) {
   d->pstack = (size_t)d->narena - start - (size_t)avail;
   print_reqs(m, d, site);
   fprintf(vout, "S"); print_state(m, d); print_ptrs(m, d); fprintf(vout, "\n");
+  if (site == 'Y' || site == 'A') {
+    // what the phases of mj_makeY / mj_makeAR request: sparse?, nv, nefc, nY, nA of the forwarded state
+    fprintf(vout, "D %d %d %d %d %d\n", mj_isSparse(m), m->nv, d->nefc, (int)d->nY, (int)d->nA);
+  }
   flush_out();   // the lines above survive a crash inside the site
   w_nviol = 0;
   int w0[mjNWARNING];
@@ -124,6 +130,8 @@ static int one_test(char site, long long avail) {
       case 'C': ret = mj_addContact(m, d, &con); break;
       case 'E': ret = arenaAllocEfc(m, d); break;
       case 'I': ret = arenaAllocIsland(m, d); break;
+      case 'Y': mj_makeY(m, d, 0); break;
+      case 'A': mj_makeAR(m, d); break;
       default: return 2;
     }
   } else {
@@ -152,6 +160,12 @@ static int one_test(char site, long long avail) {
   for (int i = 0; i < d->ncon; i++) if (d->contact[i].efc_address >= d->nefc) nstale++;
   fprintf(vout, " %d %d %lld %d %ld %lld %lld %lld %lld %lld %lld\n", nw, wk, wi, nstale,
           (long)w_nviol, w_first[0], w_first[1], w_first[2], w_first[3], w_first[4], w_first[5]);
+  if (site == 'Y') {
+    if (mj_isSparse(m)) fprintf(vout, "P 4 %" PRIuPTR " %" PRIuPTR " %" PRIuPTR " %" PRIuPTR "\n", P(d->efc_Y_rownnz), P(d->efc_Y_rowadr), P(d->efc_Y), P(d->efc_Y_colind));
+    else fprintf(vout, "P 1 %" PRIuPTR "\n", P(d->efc_Y));
+  } else if (site == 'A') {
+    fprintf(vout, "P 1 %" PRIuPTR "\n", P(d->efc_AR));
+  }
   mj_deleteData(d);
   return 0;
 }
